@@ -13,7 +13,10 @@ pub struct C05;
 pub fn domain() -> Domain {
     let mut d = Domain::general();
     // weight the classes that make identifier collisions (and hence internal order) observable
-    d.elem_classes = vec![("plain", 3), ("case", 6), ("separator", 6), ("keyword", 4), ("concat", 3), ("trap", 3), ("prefixed", 1), ("std", 1), ("nonascii", 1)];
+    d.elem_classes = vec![("plain", 3), ("case", 6), ("separator", 6), ("keyword", 4), ("concat", 3), ("trap", 3), ("prefixed", 3), ("std", 1), ("nonascii", 1)];
+    // the statement is about all documents: names that differ only in their namespace prefix (link / atom:link, a:id / b:id)
+    // are allowed here (byte equality needs no reference model)
+    d.no_prefix_clash = false;
     d
 }
 
